@@ -1185,8 +1185,8 @@ pub fn registry() -> Vec<Profile> {
             run: run_c06,
             required: &["chain_compared", "too_long_refused", "secret_with_nul_or_whitespace", "consecutive_derivations_compared", "capacity[0]", "capacity[3]", "capacity[128]", "t_leap_day", "year_below_1000", "secret_len[0]", "secret_len[40]", "secret_len[41]"],
             rule: "key-store node: secrets of every byte length 0..66 (ASCII and multi-byte) against capacities {0,3,4,8,44,64,128}; at the default capacity the node derives through all five cache levels and all six shortcut entry points for dates over years 1-9999 (leap days, year ends) and regions/services incl. empty and non-ASCII, compared with the client's independent HMAC chain; distinct by (secret length, leap year, leap day, region/service lengths). Weakest fit for simulation: the statement is a pure function; the simulator contributes the second party and the calendar only.",
-            quick_runs: 360000,
-            thorough_runs: 4320000,
+            quick_runs: 720000,
+            thorough_runs: 8640000,
             real: &["KSecretKey<M>, KDateKey, KRegionKey, KServiceKey, KSigningKey and every shortcut derivation (real code)"],
             stubs: &["client-side HMAC chain (reference, RustCrypto hmac/sha2 directly)", "calendar (harness civil-date arithmetic; chrono NaiveDate only as the argument type)"],
             assumptions: ASSUME_COMMON,
@@ -1199,8 +1199,8 @@ pub fn registry() -> Vec<Profile> {
             run: run_c09,
             required: &["path_equal", "path_refused", "path_respelled", "path_defect_delivered", "canonical_bytes_compared"],
             rule: "two thirds direct: path strings over a 40-token segment alphabet (dots in every spelling, escaped slashes, bad escapes, reserved characters, UTF-8, controls, any Unicode scalar), both modes, compared with the reference normal form, re-canonicalised (idempotence) and re-spelled (insensitivity); one third end to end: intermediaries re-spell / tamper with the path of signed requests and inject malformed escapes or climbs. Raw '+' is generated but unasserted (known finding). Partly generation only (see DESIGN §4 C09).",
-            quick_runs: 80000,
-            thorough_runs: 960000,
+            quick_runs: 160000,
+            thorough_runs: 1920000,
             real: REAL_COMMON,
             stubs: STUBS_COMMON,
             assumptions: ASSUME_COMMON,
@@ -1213,8 +1213,8 @@ pub fn registry() -> Vec<Profile> {
             run: run_c10,
             required: &["hash_incarnation", "prefix_names", "dup_names", "empty_name", "empty_value", "ampamp", "signature_param_present", "malformed_query_direct", "query_defect_delivered", "canonical_bytes_compared"],
             rule: "two thirds direct: a multiset of decoded pairs (prefix-related names followed by bytes below '=', repeated names/pairs, empty names/values, X-Amz-Signature) is spelled 2-5 ways (permutation, hex case, needless escapes, +/%20, missing '=', &&) and each spelling canonicalised under 1-3 fresh process incarnations whose hash keys the tape chooses; all results must equal the reference string; one third end to end through signed deliveries. Distinct by (pair count, canonical length class, evaluations).",
-            quick_runs: 52000,
-            thorough_runs: 624000,
+            quick_runs: 104000,
+            thorough_runs: 1248000,
             real: REAL_COMMON,
             stubs: STUBS_COMMON,
             assumptions: ASSUME_COMMON,
@@ -1227,8 +1227,8 @@ pub fn registry() -> Vec<Profile> {
             run: run_c16,
             required: &["date_must_accept", "date_must_reject", "date_unspecified", "date_fraction", "date_offset_moves_day", "instant_observed"],
             rule: "clients render their simulated clock in every admissible form (basic/extended, Z or any offset, ./, fraction of 0-12 digits) and the network corrupts the text (drop/insert/replace a character, out-of-range field, missing zone, HTTP-date); each text is delivered on either carrier signed by the reference signer for the reference instant (accept / format-error verdict, string to sign and scope date end to end), and the instant the library assigned plus the timestamp line of its string to sign are observed at nanosecond resolution through the `unstable` seam; distinct by (verdict class, carrier, length, form)",
-            quick_runs: 84000,
-            thorough_runs: 1008000,
+            quick_runs: 168000,
+            thorough_runs: 2016000,
             real: REAL_COMMON,
             stubs: STUBS_COMMON,
             assumptions: ASSUME_COMMON,
